@@ -472,6 +472,18 @@ func LoadKnown() []Known {
 	return res
 }
 
+// knownText returns the free-text part of a known entry.
+func knownText(k *Known) string {
+	var fs []string
+	for _, f := range strings.Fields(k.Text) {
+		if strings.HasPrefix(f, "property=") || strings.HasPrefix(f, "key=") || strings.HasPrefix(f, "witness=") {
+			continue
+		}
+		fs = append(fs, f)
+	}
+	return strings.Join(fs, " ")
+}
+
 func matchKnown(ks []Known, prop, key string) *Known {
 	for i := range ks {
 		k := &ks[i]
@@ -895,6 +907,7 @@ func RunCheck(c *Check, tier string, seed int64) int {
 	sort.Strings(keys)
 	nViol := 0
 	var knownHit []string
+	knownSeen := map[string]int{}
 	var out bytes.Buffer
 	for _, k := range keys {
 		v := a.viols[k]
@@ -904,7 +917,10 @@ func RunCheck(c *Check, tier string, seed int64) int {
 		os.WriteFile(rp, wb, 0o644)
 		if kn := matchKnown(known, c.ID, k); kn != nil {
 			knownHit = append(knownHit, k)
-			fmt.Fprintf(&out, "KNOWN-FINDING: property=%s key=%s %s (seen %d times; replay=%s)\n", c.ID, k, v.What, a.violN[k], rp)
+			if knownSeen[kn.Key] == 0 {
+				fmt.Fprintf(&out, "KNOWN-FINDING: property=%s key=%s %s [e.g. %s; replay=%s]\n", c.ID, kn.Key, knownText(kn), oneLine(v.What), rp)
+			}
+			knownSeen[kn.Key] += a.violN[k]
 			continue
 		}
 		nViol++
